@@ -224,4 +224,92 @@ def tasks(tier, seed):
     return out
 
 
+# -- enumerated real-runtime scenario (NOT solver-decided): adopt while payload cleanup is still running --------
+def _adopt_during_cleanup(target_flavour):
+    """shutdown() is in progress and a trio payload is still inside its shielded cleanup: adopt must not raise"""
+    w = rt.World(accept_delay=0.02)
+    runner = w.runner
+    cleaning = threading.Event()
+    problems = []
+
+    inside = []
+
+    async def stubborn():
+        try:
+            await trio.sleep(3600)
+        finally:
+            with trio.CancelScope(shield=True):
+                cleaning.set()
+                await trio.sleep(0.3)
+                if target_flavour == "trio_inside":  # the cleaning payload itself hands work over
+                    async def successor():
+                        return None
+                    try:
+                        inside.append(("returned", runner.adopt(successor, flavour=trio)))
+                    except BaseException as e:  # noqa: B036
+                        inside.append(("raised", e))
+                await trio.sleep(0.3)
+
+    if target_flavour == "threading":
+        def late():
+            return None
+    else:
+        async def late():
+            return None
+    try:
+        runner.adopt(stubborn, flavour=trio)
+        w.start()
+        if not w.wait_running():
+            return ["runner never reported running"]
+        time.sleep(0.1)
+        t = threading.Thread(target=runner.shutdown, daemon=True)
+        t.start()
+        if not cleaning.wait(10):
+            problems.append("the trio payload was not cancelled by shutdown()")
+        else:
+            time.sleep(0.1)
+            try:
+                r = runner.adopt(late, flavour=rt.FLAVOURS[target_flavour]) if target_flavour != "trio_inside" else None
+                if r is not None:
+                    problems.append("adopt returned %r" % (r,))
+            except BaseException as e:  # noqa: B036
+                problems.append("adopt(flavour=%s) raised %s: %s while the runtime was finishing payload cleanup"
+                                % (target_flavour, type(e).__name__, e))
+        t.join(rt.BOUND)
+        if t.is_alive():
+            problems.append("shutdown() did not return")
+        out = w.join(bound=10)
+        if out.kind != "return":
+            problems.append("accept() did not return normally after shutdown (%s %r)" % (out.kind, out.exc))
+        if target_flavour == "trio_inside" and inside != [("returned", None)]:
+            problems.append("adopt from inside a trio payload's cleanup: %r" % (inside,))
+    finally:
+        try:
+            w.cleanup()
+        except Exception as e:
+            problems.append("cleanup failed: %s" % e)
+    return problems
+
+
+def extra(tier, seed):
+    violations = []
+    for f in FLAV + ("trio_inside",):
+        problems = _adopt_during_cleanup(f)
+        if problems:
+            problems = _adopt_during_cleanup(f)  # believe it only if it happens twice
+        for msg in problems[:1]:
+            violations.append({"harness": "adopt_during_cleanup", "label": "adopt does not raise while payload cleanup is finishing (enumerated scenario)",
+                               "inputs": {"flavour": f, "problem": msg}, "params": {}, "status": "confirmed",
+                               "kind": "custom", "module": MOD, "property": PROPERTY})
+    return {"violations": violations, "enumerated_shutdown_scenarios": ["adopt(%s) during shielded trio cleanup" % f for f in FLAV + ("trio_inside",)],
+            "enumerated_note": "concrete real-runtime scenarios on one OS schedule each: NOT solver-decided"}
+
+
+def replay(v):
+    problems = _adopt_during_cleanup(v["inputs"]["flavour"])
+    print(problems)
+    print("REPRODUCED" if problems else "not reproduced on this tree")
+    return 1 if problems else 0
+
+
 PREDICATES = {}
